@@ -66,6 +66,7 @@ const (
 //	  string z = 14;
 //	  Flat fl = 15 [(j5.ext.v1.field).object.flatten = true];   // message Flat { string fa = 1; int32 fn = 2; Deep deep = 3 [flatten]; }  message Deep { string da = 1; }
 //	  oneof pick { option (j5.ext.v1.oneof).expose = true; string px = 16; int32 pn = 17; }
+//	  j5.types.any.v1.Any any = 18;
 //	}
 func verifMsgUniverse() *j5schema.VerifUniverse {
 	inner := &descriptorpb.DescriptorProto{Name: proto.String("Inner"), Field: []*descriptorpb.FieldDescriptorProto{
@@ -110,6 +111,7 @@ func verifMsgUniverse() *j5schema.VerifUniverse {
 			vmRepeated(vmField("m", 12, dtMsg, ".m.v1.Root.MEntry")), vmRepeated(vmField("mo", 13, dtMsg, ".m.v1.Root.MoEntry")),
 			vmField("z", 14, dtStr, ""),
 			flat, px, pn,
+			vmField("any", 18, dtMsg, ".j5.types.any.v1.Any"),
 		}}
 	ev := func(name string, n int32) *descriptorpb.EnumValueDescriptorProto {
 		return &descriptorpb.EnumValueDescriptorProto{Name: proto.String(name), Number: proto.Int32(n)}
@@ -117,7 +119,19 @@ func verifMsgUniverse() *j5schema.VerifUniverse {
 	fdp := &descriptorpb.FileDescriptorProto{Name: proto.String("m/v1/m.proto"), Package: proto.String("m.v1"), Syntax: proto.String("proto3"),
 		MessageType: []*descriptorpb.DescriptorProto{inner, choice, deepMsg, flatMsg, root},
 		EnumType:    []*descriptorpb.EnumDescriptorProto{{Name: proto.String("E"), Value: []*descriptorpb.EnumValueDescriptorProto{ev("E_UNSPECIFIED", 0), ev("E_ONE", 1), ev("E_TWO", 2)}}}}
-	return j5schema.VerifNewUniverse(fdp)
+	// the j5 Any type, with its real shape
+	anyFile := &descriptorpb.FileDescriptorProto{Name: proto.String("j5/types/any/v1/any.proto"), Package: proto.String("j5.types.any.v1"), Syntax: proto.String("proto3"),
+		MessageType: []*descriptorpb.DescriptorProto{{Name: proto.String("Any"), Field: []*descriptorpb.FieldDescriptorProto{
+			vmField("type_name", 1, dtStr, ""), vmField("proto", 2, descriptorpb.FieldDescriptorProto_TYPE_BYTES, ""), vmField("j5_json", 3, descriptorpb.FieldDescriptorProto_TYPE_BYTES, "")}}}}
+	return j5schema.VerifNewUniverse(fdp, anyFile)
+}
+
+// verifNoTypes: a resolver that knows no message type (decoding the proto half
+// of an Any needs the protobuf runtime, which is outside this harness)
+type verifNoTypes struct{}
+
+func (verifNoTypes) FindMessageByName(name protoreflect.FullName) (protoreflect.MessageType, error) {
+	return nil, errors.New("not found")
 }
 
 // ---- expected / parsed JSON trees ----
@@ -310,6 +324,10 @@ func refTreeEqual(got, want *refNode, tag string) {
 type vmBuilder struct {
 	u      *j5schema.VerifUniverse
 	utf8OK bool // every string placed in the message is valid UTF-8
+	// an Any without stored J5 JSON: the encoder has to fail (unknown proto type
+	// here) — whatever it does, it must not emit malformed JSON
+	anyWithoutJSON bool
+	family         int
 }
 
 func (vb *vmBuilder) text(name string, max int) string {
@@ -350,7 +368,8 @@ func (vb *vmBuilder) draw() (*j5schema.VerifDynMessage, *refNode) {
 		m.Set(fd("a"), protoreflect.ValueOfString("x"))
 		want.add("a", rnStr("x"))
 	}
-	family := ndChoice("family", 9)
+	family := ndChoice("family", 10)
+	vb.family = family
 	if only := verifParam("family", -1); only >= 0 && only != family {
 		verifAssume(false)
 	}
@@ -511,6 +530,35 @@ func (vb *vmBuilder) draw() (*j5schema.VerifDynMessage, *refNode) {
 			}
 			m.Set(fd("fl"), protoreflect.ValueOfMessage(in))
 		}
+	case 9: // j5 Any: {"!type": name, "value": <the stored J5 JSON>}
+		if ndBool("any-set") {
+			am := vb.u.Message("j5.types.any.v1.Any")
+			av := j5schema.VerifNewDynMessage(am)
+			tn := vb.text("any.type", 1)
+			if len(tn) > 0 {
+				av.Set(am.Fields().ByName("type_name"), protoreflect.ValueOfString(tn))
+			}
+			node := &refNode{kind: 'o'}
+			node.add("!type", rnStr(tn))
+			switch ndChoice("any.json", 3) {
+			case 1:
+				av.Set(am.Fields().ByName("j5_json"), protoreflect.ValueOfBytes([]byte("{}")))
+				node.add("value", &refNode{kind: 'o'})
+			case 2:
+				av.Set(am.Fields().ByName("j5_json"), protoreflect.ValueOfBytes([]byte(`{"k":"v"}`)))
+				inner := &refNode{kind: 'o'}
+				inner.add("k", rnStr("v"))
+				node.add("value", inner)
+			default:
+				// no J5 JSON stored: nothing the encoder can write as the value
+				vb.anyWithoutJSON = true
+				if ndBool("any.proto") {
+					av.Set(am.Fields().ByName("proto"), protoreflect.ValueOfBytes([]byte{1}))
+				}
+			}
+			m.Set(fd("any"), protoreflect.ValueOfMessage(av))
+			want.add("any", node)
+		}
 	case 8: // exposed oneof
 		switch ndChoice("pick", 3) {
 		case 1:
@@ -599,10 +647,20 @@ func vmEncodeChecked() (vb *vmBuilder, c *Codec, msg *j5schema.VerifDynMessage, 
 	vb = &vmBuilder{u: verifMsgUniverse(), utf8OK: true}
 	var want *refNode
 	msg, want = vb.draw()
-	c = &Codec{refl: j5reflect.New()}
+	c = &Codec{refl: j5reflect.New(), resolver: verifNoTypes{}}
 	verifTermBudget(8000000)
 	out, err := c.encode(msg)
 	verifEndTermBudget()
+	if vb.anyWithoutJSON && vb.utf8OK {
+		fine := err != nil
+		if err == nil {
+			var t2 []json.Token
+			_, end, pok := refParseJSON(out, 0, &t2)
+			fine = pok && end == len(out)
+		}
+		verifAssert(fine, "any-without-json-is-an-error-or-still-well-formed")
+		return
+	}
 	if !vb.utf8OK {
 		verifAssert(err != nil, "invalid-utf8-rejected")
 		return
@@ -637,6 +695,9 @@ func HarnessMessageRoundTrip() {
 	vb, c, msg, out, toks, ok := vmEncodeChecked()
 	if !ok {
 		return
+	}
+	if vb.family == 9 {
+		return // decoding an Any re-reads raw JSON with encoding/json's Decode, which is not modelled
 	}
 	verifToks, verifTokPos = toks, 0
 	back := j5schema.VerifNewDynMessage(vb.u.Message("m.v1.Root"))
